@@ -147,13 +147,23 @@ pub fn child_main(arrangement: &str) -> i32 {
         _ => return 2,
     };
     let sched: Vec<u8> = if noise_first { vec![2; 100_000] } else { vec![] };
-    let (a, _) = match &case {
+    let r = std::panic::catch_unwind(std::panic::AssertUnwindSafe(|| match &case {
         Case::Chain { main, noise, .. } => run_schedule(&|| make_chain(main), &|| make_chain(noise), &sched, (true, false, with_noise), 0),
         Case::Stake { main, noise, .. } => run_schedule(&|| make_stake(main), &|| make_stake(noise), &sched, (true, false, with_noise), 0),
-    };
-    if let Some(a) = a {
-        for d in transcript_of(a.as_ref()) {
-            println!("{:016x}", d);
+    }));
+    match r {
+        Ok((Some(a), _)) => {
+            for d in transcript_of(a.as_ref()) {
+                println!("{:016x}", d);
+            }
+        }
+        Ok(_) => {}
+        Err(_) => {
+            if crate::harness::last_panic_was_in_checker() {
+                return 2;
+            }
+            // the simulator panicked in this arrangement: that is this arrangement's transcript
+            println!("{:016x}", u64::MAX);
         }
     }
     0
@@ -252,6 +262,7 @@ impl Engine for TwinSim {
         }
     }
     fn execute(&self, case: &Case) -> RunResult {
+        let body = || -> RunResult {
         let mut stats = RunStats::default();
         let mut viol = vec![];
         let (a, b, sched_len, subprocess, kind) = match case {
@@ -342,6 +353,22 @@ impl Engine for TwinSim {
         dig.write_u64(viol.len() as u64);
         stats.digest = dig.finish();
         RunResult { violations: viol, stats }
+        };
+        // a panic of the simulator that escapes every per-call guard (while an instance is being built, say)
+        // in one arrangement is a divergence between arrangements; a panic of the checker's own code is not
+        match std::panic::catch_unwind(std::panic::AssertUnwindSafe(body)) {
+            Ok(r) => r,
+            Err(p) => {
+                if crate::harness::last_panic_was_in_checker() {
+                    std::panic::resume_unwind(p);
+                }
+                crate::world::set_current_world(None);
+                RunResult {
+                    violations: vec![Violation::new(P, "C19.panic", format!("the simulator panicked while one of the instances was built or stepped: {}", crate::harness::panic_message(&p)))],
+                    stats: RunStats::default(),
+                }
+            }
+        }
     }
     fn shrink(&self, case: &Case) -> Vec<Case> {
         let mut out = vec![];
